@@ -146,6 +146,13 @@ func (s *Store) Delete(bid bpv7.BundleID) error {
 			"bundle": bid,
 		}).Info("Store deletes BundleItem")
 
+		// The index entry is deleted before the files. Being interrupted in between leaves some orphaned files behind,
+		// instead of an entry whose bundle can no longer be loaded.
+		verifhook.At("store.delete.index")
+		if err := s.bh.Delete(bi.Id, BundleItem{}); err != nil {
+			return err
+		}
+
 		for _, bp := range bi.Parts {
 			if err := bp.deleteBundle(); err != nil {
 				log.WithFields(log.Fields{
@@ -156,9 +163,6 @@ func (s *Store) Delete(bid bpv7.BundleID) error {
 			}
 			verifhook.At("store.delete.part")
 		}
-		verifhook.At("store.delete.index")
-
-		return s.bh.Delete(bi.Id, BundleItem{})
 	}
 
 	return nil
